@@ -6,7 +6,6 @@ import (
 	"fmt"
 	"io"
 	"os"
-	"path"
 	"path/filepath"
 	"strings"
 	"time"
@@ -736,7 +735,9 @@ func (w *Worktree) doUpdateFileToIndex(e *index.Entry, filename string, h plumbi
 	return nil
 }
 
-// Remove removes files from the working tree and from the index.
+// Remove removes files from the working tree and from the index. If path is
+// a directory, everything tracked below it is removed; directories emptied by
+// that are removed as well.
 func (w *Worktree) Remove(path string) (plumbing.Hash, error) {
 	// TODO(mcuadros): remove plumbing.Hash from signature at v5.
 	idx, err := w.r.Storer.Index()
@@ -744,51 +745,57 @@ func (w *Worktree) Remove(path string) (plumbing.Hash, error) {
 		return plumbing.ZeroHash, err
 	}
 
+	// What is removed is what the index has at path or below it, as with
+	// git rm -r: the worktree cannot tell, a tracked file may already be gone
+	// from it and an untracked one is not to be touched.
+	name := filepath.ToSlash(filepath.Clean(path))
 	var h plumbing.Hash
-
-	fi, err := w.filesystem.Lstat(path)
-	if err != nil || !fi.IsDir() {
-		h, err = w.doRemoveFile(idx, path)
-	} else {
-		_, err = w.doRemoveDirectory(idx, path)
+	var entries []*index.Entry
+	for _, e := range idx.Entries {
+		if e.Name == name {
+			h = e.Hash
+		}
+		if e.Name == name || name == "." || strings.HasPrefix(e.Name, name+"/") {
+			entries = append(entries, e)
+		}
 	}
-	if err != nil {
-		return h, err
+
+	if len(entries) == 0 {
+		return plumbing.ZeroHash, index.ErrEntryNotFound
+	}
+
+	if err := w.removeEntries(idx, entries); err != nil {
+		return plumbing.ZeroHash, err
 	}
 
 	return h, w.setIndex(idx)
 }
 
-func (w *Worktree) doRemoveDirectory(idx *index.Index, directory string) (removed bool, err error) {
-	files, err := w.filesystem.ReadDir(directory)
-	if err != nil {
-		return false, err
-	}
-
-	for _, file := range files {
-		name := path.Join(directory, file.Name())
-
-		var r bool
-		if file.IsDir() {
-			r, err = w.doRemoveDirectory(idx, name)
-		} else {
-			_, err = w.doRemoveFile(idx, name)
-			if errors.Is(err, index.ErrEntryNotFound) {
-				err = nil
-			}
+// removeEntries removes entries from idx and their files from the worktree,
+// together with the directories this leaves empty.
+func (w *Worktree) removeEntries(idx *index.Index, entries []*index.Entry) error {
+	// A directory standing where a tracked file was cannot be unlinked; git rm
+	// gives up on it too. Refuse before anything is removed.
+	for _, e := range entries {
+		fi, err := w.filesystem.Lstat(filepath.FromSlash(e.Name))
+		if err == nil && fi.IsDir() {
+			return fmt.Errorf("cannot remove %q: is a directory", e.Name)
 		}
-
-		if err != nil {
-			return removed, err
-		}
-
-		if !removed && r {
-			removed = true
+		if err != nil && !os.IsNotExist(err) {
+			return err
 		}
 	}
 
-	err = w.removeEmptyDirectory(directory)
-	return removed, err
+	for _, e := range entries {
+		if _, err := idx.Remove(e.Name); err != nil {
+			return err
+		}
+		if err := rmFileAndDirsIfEmpty(w.filesystem, filepath.FromSlash(e.Name)); err != nil {
+			return err
+		}
+	}
+
+	return nil
 }
 
 func (w *Worktree) removeEmptyDirectory(path string) error {
